@@ -154,6 +154,15 @@ def check_table(ctx, case):
         call("has_cyclic", lambda: su.has_cyclic((ids, pids)), cyc)
     if positional:
         call("is_sorted", lambda: su.is_sorted((ids, pids)), bool(np.all(pids < ids)))
+        # the same table handed over as plain lists / tuples
+        call("is_sorted", lambda: su.is_sorted((ids.tolist(), pids.tolist())),
+             bool(np.all(pids < ids)))
+        call("is_sorted", lambda: su.is_sorted([tuple(ids.tolist()), tuple(pids.tolist())]),
+             bool(np.all(pids < ids)))
+        call("is_bifurcate(exclude_root=False)",
+             lambda: su.is_bifurcate((ids.tolist(), pids.tolist()), exclude_root=False),
+             all(v <= 2 for v in cnt.values()))
+        call("has_cyclic", lambda: su.has_cyclic((ids.tolist(), pids.tolist())), cyc)
     call("is_bifurcate(exclude_root=False)",
          lambda: su.is_bifurcate((ids, pids), exclude_root=False),
          all(v <= 2 for v in cnt.values()))
